@@ -52,6 +52,7 @@ def run(ctx):
     rng = ctx.rng
     type_structures(ctx, 150 if quick else 1500)
     every_alias(ctx)
+    expression_spellings(ctx)
     imported_generic_orders(ctx)
     for k in range(4 if quick else 24):
         ns = "Sp" + "abcdefghijklmnopqrstuvwxyz"[k % 26] + ("x" * (k // 26))
@@ -91,6 +92,49 @@ def run(ctx):
                 ctx.report("different-schema:" + style, "the '%s' spelling of a package changes the embedded schema of protocol(s) %s"
                            % (style, bad[:3]), dict(rep, protocols=bad, schema_original=base[3].get(bad[0]) if bad else None,
                                                     schema_respelled=sc.get(bad[0]) if bad else None))
+
+
+EXPR_SPELLINGS = [
+    ("a - 1", "a-1", "( a )  -  1"), ("a * b + 1", "a*b+1", "(a * b) + 1"), ("0.5 * f - 1.5", "0.5*f-1.5", "(0.5 * f) - 1.5"),
+    ("size(v) - 1", "size(v)-1", "size( v ) - 1"), ("v[a - 1]", "v[a-1]", "v[ a - 1 ]"), ("arr[0, 1] * 2", "arr[0,1]*2", "arr[ 0 , 1 ] * 2"),
+    ("size(arr, 'x')", "size(arr,'x')", "size( arr , 'x' )"), ("(a as float64) / 2.0", "(a as float64)/2.0", "( a as float64 ) / 2.0"),
+    ("-a", "-a", "-(a)"), ("a - b", "a-b", "(a) - (b)"), ("a - -1", "a- -1", "a - (-1)"), ("(a + b) * (a - b)", "(a+b)*(a-b)", "((a + b)) * ((a - b))"),
+    ("a + 2 - 1", "a+2-1", "(a + 2) - 1"), ("f / 2.5 + 1e3", "f/2.5+1e3", "(f / 2.5) + 1e3"), ("a * -2", "a*-2", "a * (-2)"),
+    ("size(arr, 0) + size(arr, 1)", "size(arr,0)+size(arr,1)", "size( arr, 0 ) + size( arr, 1 )"),
+]
+
+
+def expression_spellings(ctx):
+    """computed-field expressions written with blanks around every operator, with none, and with redundant parentheses and blanks:
+    one model, so one verdict and one generated tree"""
+    res = {}
+    for si, style in enumerate(("spaced", "compact", "redundant")):
+        lines = ["R: !record", "  fields:", "    a: int32", "    b: int32", "    f: float64", "    v: int32*", "    arr: float32[x, y]",
+                 "  computedFields:"]
+        for i, sp in enumerate(EXPR_SPELLINGS):
+            lines.append("    c%s: \"%s\"" % ("abcdefghijklmnopqrstuvwxyz"[i], sp[si]))
+        lines += ["P: !protocol", "  sequence:", "    r: R"]
+        d = os.path.join(ctx.scratch, "exprsp", style)
+        os.makedirs(d + "/model")
+        open(d + "/model/_package.yml", "w").write("namespace: Ex\n%s" % CFG)
+        open(d + "/model/model.yml", "w").write("\n".join(lines) + "\n")
+        rc, o, e = sh([ctx.yardl, "generate"], cwd=d + "/model", timeout=120)
+        res[style] = (rc, (o + e)[-600:], tree(d + "/out") if rc == 0 else {}, "\n".join(lines) + "\n")
+    base = res["spaced"]
+    if base[0] != 0:
+        raise RuntimeError("yardl rejected the expression-spelling package: " + base[1])
+    for style in ("compact", "redundant"):
+        rc, out, tr, text = res[style]
+        ctx.case(("expr-spelling", style), sample={"crafted": "computed-field expressions, %s spelling" % style, "accepted": rc == 0,
+                                                   "identical_tree": tr == base[2]})
+        rep = {"spaced_spelling": base[3], "respelled": text, "spelling": style}
+        if rc != 0:
+            ctx.report("rejected-spelling:expression-" + style, "yardl accepts computed-field expressions written with blanks around the "
+                       "operators but rejects the same expressions in the %s spelling: %s" % (style, out[-300:]), dict(rep, output=out))
+        elif tr != base[2]:
+            diff = sorted(f for f in set(tr) | set(base[2]) if tr.get(f) != base[2].get(f))
+            ctx.report("different-code:expression-" + style, "the %s spelling of computed-field expressions generates different code "
+                       "(%d files differ: %s)" % (style, len(diff), diff[:4]), dict(rep, files_differ=diff[:20]))
 
 
 def every_alias(ctx):
